@@ -38,6 +38,7 @@ func cmdFuncs(args []string) {
 	noContract := fs.Bool("all", false, "include functions without contract")
 	alloc := fs.String("alloc", "", "alloc bound expression")
 	verbose := fs.Bool("v", false, "print discharged obligations too")
+	pinv := fs.String("pinv", "", "param invariant: <type string>=<expr over $p>")
 	fs.Parse(args)
 	t0 := time.Now()
 	eng, err := LoadEngine(*repo, strings.Split(*pkgs, ","), "/verif/gcv/deps")
@@ -64,7 +65,12 @@ func cmdFuncs(args []string) {
 	for _, n := range names {
 		fn := eng.AllFuncs[n]
 		t1 := time.Now()
-		f := eng.GenVC(fn, VerifyOpts{SafetyOnly: *safety, AllocBound: *alloc})
+		vo := VerifyOpts{SafetyOnly: *safety, AllocBound: *alloc, NoFrame: *safety}
+		if *pinv != "" {
+			kv := strings.SplitN(*pinv, "=", 2)
+			vo.ParamInvs = map[string]string{kv[0]: kv[1]}
+		}
+		f := eng.GenVC(fn, vo)
 		gen := time.Since(t1)
 		if f.Unsupported != "" {
 			fmt.Printf("== %s: OUTSIDE SUBSET: %s\n", f.Name, f.Unsupported)
@@ -84,7 +90,10 @@ func cmdFuncs(args []string) {
 			tot++
 			good := v.Status == "unsat" || v.Status == "trivial"
 			if v.Oblig.IsCover {
-				good = v.Status != "unsat"
+				good = v.Status != "unsat" && v.Status != "error"
+			}
+			if v.Status == "error" {
+				fmt.Println("   SOLVER ERROR:", v.Output)
 			}
 			if good {
 				ok++
